@@ -256,6 +256,8 @@ func expectBack(v *gv, sb *strings.Builder) {
 			sb.WriteString(" k" + cps(k.text) + " ")
 			expectBack(v.vals[i], sb)
 		}
+	case 'S':
+		sb.WriteString("S" + cps(v.s)) // the raw-literal flag is not data
 	default:
 		v.input(sb)
 	}
@@ -708,7 +710,7 @@ func candidates(v *gv) []*gv {
 		rs := []rune(v.s)
 		if validStr(v.s) {
 			for i := range rs {
-				out = append(out, &gv{kind: 'S', s: string(rs[:i]) + string(rs[i+1:])})
+				out = append(out, &gv{kind: 'S', raw: v.raw, s: string(rs[:i]) + string(rs[i+1:])})
 			}
 		} else {
 			for i := 0; i < len(v.s); i++ {
